@@ -2,6 +2,7 @@ use crate::engine::runner::Report;
 
 pub mod c01;
 pub mod c02;
+pub mod c09;
 pub mod c14;
 pub mod c15;
 pub mod c30;
@@ -19,6 +20,7 @@ pub type RunFn = fn(&mut Report);
 pub const REGISTRY: &[(&str, RunFn)] = &[
     ("C01", c01::run),
     ("C02", c02::run),
+    ("C09", c09::run),
     ("C14", c14::run),
     ("C15", c15::run),
     ("C30", c30::run),
